@@ -164,7 +164,17 @@ def run_spec(spec, listeners=(), until=None, resume=None, max_steps=None):
     for l in listeners:
         l.attach(h, tr)
         tr.listeners.append(l)
-    rec = {"exception": None, "end": None, "nonterminated": False}
+    rec = {"exception": None, "end": None, "nonterminated": False, "until": until}
+    from topsim.core.task import Task
+    orig_calc = Task._calc_task_delay
+
+    def calc(self_task):
+        r = orig_calc(self_task)
+        for l in listeners:
+            if hasattr(l, "on_calc"):
+                l.on_calc(self_task, self_task.duration, r)
+        return r
+    Task._calc_task_delay = calc
     try:
         with tracer_mod.tracing(tr):
             sim = h.sim
@@ -218,6 +228,7 @@ def run_spec(spec, listeners=(), until=None, resume=None, max_steps=None):
         for l in listeners:
             l.finish(rec)
     finally:
+        Task._calc_task_delay = orig_calc
         rec["nprocs"] = tr.next_pid
         h.close()
     return rec
